@@ -10,5 +10,5 @@ for d in /tmp/seed/$TAG/OUT/refactor_*.diff; do
   echo "=== $(basename $d)"
   rsync -a --delete --exclude /target --exclude .git /repo/ $S/
   (cd $S && patch -p1 -s < "$d") || { echo "  does not apply"; continue; }
-  XL_TARGET_DIR=/verif/.cache/target-rel-b bin/xl checkall --repo $S 2>/dev/null | grep -vE ": [0-9]+ results, 0 failing"
+  OUT_=$(XL_TARGET_DIR=/verif/.cache/target-rel-b bin/xl checkall --repo $S 2>/var/tmp/xl-try/err.log); N_=$(echo "$OUT_" | grep -cE ": [0-9]+ results"); echo "$OUT_" | grep -vE ": [0-9]+ results, 0 failing"; [ "$N_" -ge 17 ] || { echo "  CHECKALL INCOMPLETE ($N_/17 properties reported)"; tail -3 /var/tmp/xl-try/err.log; }
 done
